@@ -10,14 +10,17 @@ def main(tier):
     ev = vf.Evidence(PROP, tier)
     fnd = vf.Findings()
     bins = st_common.build_replay()
-    parts = [("flag_v3_vals2", "MC_SimplexTree_flag3.cfg", 3, 2), ("flag_v4_val1", "MC_SimplexTree_flag4.cfg", 4, 3)]
+    parts = [("flag_v3_vals2", "MC_SimplexTree_flag3.cfg", 3, 2), ("flag_v4_val1", "MC_SimplexTree_flag4.cfg", 4, 3),
+             # a candidate set with >= 3 members of which >= 2 are blocked needs 5 vertices: nearly complete graphs on 5
+             # vertices, one expansion with at most 2 (thorough 3) blocked simplices of any dimension
+             ("blockers_v5", "MC_SimplexTree_blk5_q.cfg" if tier == "quick" else "MC_SimplexTree_blk5.cfg", 5, 4)]
     unknown = []
     total = 0
     ops = {}
     for part, cfg, nv, maxdim in parts:
         r, g, summ, devs, crashes = st_common.run_model(ev, part, cfg, bins, nv, maxdim,
                                                         gap_edges_per_state=10 if tier == "quick" else None,
-                                                        max_edges_per_state=None if tier == "thorough" or part == "flag_v3_vals2" else 40)
+                                                        max_edges_per_state=None if tier == "thorough" or part != "flag_v4_val1" else 40)
         if r.violation:
             p = vf.save_replay(PROP, part + "_model", {"tlc": r.violation})
             vf.violation(PROP, p)
@@ -44,10 +47,11 @@ def main(tier):
                       "reached by insert_graph, by insert_edge_as_flag in every order (interleaved with remove_maximal_simplex, "
                       "make_filtration_non_decreasing, prune_above_dimension), expanded by expansion(d), by expansion_with_blockers "
                       "for EVERY set of blocked simplices, and built by Rips_complex from every distance matrix / threshold / "
-                      "dimension in both input forms; in-model invariants: the complex is the clique complex of its graph and after "
+                      "dimension in both input forms; nearly complete graphs on 5 vertices expanded with every set of at most 2 (thorough 3) "
+                      "blocked simplices; in-model invariants: the complex is the clique complex of its graph and after "
                       "monotonisation every simplex has the largest value of its vertices and edges; every transition replayed on "
                       "every option set that allows the operation, reported added simplices compared as sets")
-    ev.assumptions = ["bounded: 3 vertices x values {1,2}, 4 vertices x value {1}", "insert_edge_as_flag only on flag complexes "
+    ev.assumptions = ["bounded: 3 vertices x values {1,2}, 4 vertices x value {1}, 5 vertices only for expansion_with_blockers on K5 minus at most one edge", "insert_edge_as_flag only on flag complexes "
                       "(documented), expansion only on complexes of dimension <= 1 with monotone values"]
     fnd.report(PROP)
     if unknown:
